@@ -136,23 +136,32 @@ def r6_per_record(run, w, rewriters):
              "process_renames call", ok, witness=wit, fi=fn.fi, node=st)
 
 
+def _is_pr(nm):
+  return endswith(nm, "predicate_formula.process_renames", "process_renames")
+
+
 def _rewriters(w):
-  """Functions that rewrite predicate formulas: they call predicate_formula.process_renames.
-  [(Fn, [(cfg node, call)])]"""
-  out = []
+  """Functions that rewrite predicate formulas: they call predicate_formula.process_renames,
+  themselves or through private helpers of their module (which are followed: the helper's body
+  is analysed in place, at the call). [(Fn, [(cfg node, call)])]"""
+  direct = []
   for fi in w.repo.all_functions():
     if fi.module.name == "predicate_formula":
       continue
-    fn = w.fn_of(fi)
-    sites = [(n, c) for (n, c, nm) in fn.calls()
-             if endswith(nm, "predicate_formula.process_renames", "process_renames")]
-    if sites and fi.parent is None:
-      # private helpers called from the rewriter are followed
-      fn = H.xfn(w, fi.qualname, keep=KEEP)
-      sites = [(n, c) for (n, c, nm) in fn.calls()
-               if endswith(nm, "predicate_formula.process_renames", "process_renames")]
+    if any(_is_pr(nm) for (n, c, nm) in w.fn_of(fi).calls()):
+      direct.append(fi)
+  mods = {fi.module.name for fi in direct}
+  out, absorbed = [], set()
+  for fi in w.repo.all_functions():
+    if fi.module.name not in mods or fi.module.name == "predicate_formula":
+      continue
+    fn = H.xfn(w, fi.qualname, keep=KEEP) if fi.parent is None else w.fn_of(fi)
+    sites = [(n, c) for (n, c, nm) in fn.calls() if _is_pr(nm)]
     if sites:
       out.append((fn, sites))
+      absorbed |= set(getattr(fn.fi, "inlined", ()))
+  # a helper that was followed into its caller is not a rewriter of its own
+  out = [(fn, sites) for (fn, sites) in out if fn.fi.qualname not in absorbed]
   if len(out) < 3:
     raise AnalysisError("fewer than 3 functions call process_renames (ACL, dropdown, trigger)")
   return sorted(out, key=lambda x: x[0].qualname)
